@@ -91,7 +91,11 @@ func init() {
 	// soft hyphen, BOM, non-printable characters beyond the BMP (tag characters, private use planes,
 	// noncharacters, the last code point)
 	odd := []string{"\x7f", "del\x7fete", "\xc2\x85", "\xc2\xad", "\xef\xbb\xbf", "\U000E0001tag", "\U000F0000", "\U0010FFFF", "\U0003FFFF", "x\U000E007Fy"}
+	// exponents that do not fit an int (still RFC 8259 numbers, carried as literals)
+	numPool = append(numPool, "1e99999999999999999999", "0e7777777777777777777777", "-1.5E-99999999999999999999", "2e+000000000000000000001", "1E9223372036854775808")
 	keyPool = append(keyPool, odd...)
+	// decimal digits that are not ASCII (Arabic-Indic, fullwidth, Devanagari): member names, never indices
+	keyPool = append(keyPool, "\xd9\xa3", "\xef\xbc\x91\xef\xbc\x92", "\xe0\xa5\xa7\xe0\xa5\xa8")
 	strPool = append(strPool, odd...)
 }
 
@@ -384,7 +388,9 @@ func genPointer(cur interface{}, forAdd bool, odd bool) string {
 		}
 	case r < 0.92:
 		// through something missing
-		return l.ptr + "/" + pick("nope", "7", "a") + "/" + pick("a", "0", "-")
+		// (the token after the missing one decides, under EnsurePathExistsOnAdd, whether an array or an
+		// object is created: decimal digits of other scripts, signs and spaces are member names)
+		return l.ptr + "/" + pick("nope", "7", "a", "\xd9\xa3") + "/" + pick("a", "0", "-", "a", "0", "-", "\xd9\xa3", "\xef\xbc\x91\xef\xbc\x92", "\xe0\xa5\xa7", "1\xd9\xa3", "+1", "1e0", " 1", "0x1", "1_0")
 	default:
 		if odd {
 			return pick(l.ptr+"/", "/", "//a", l.ptr+"/+1", l.ptr+"/01", l.ptr+"/-0", "a", "a/b", l.ptr+"/~2", l.ptr+"/~", l.ptr+"/9223372036854775808", l.ptr+"/00")
@@ -445,7 +451,33 @@ func rawAt(doc []byte, ptr string) ([]byte, bool) {
 	return cur, true
 }
 
-func jsonStr(s string) string { return quoteGo(s, false) }
+// jsonStr spells the op / path / from strings of generated operations: mostly the way Go's encoder
+// does, sometimes the way other encoders do (the solidus escaped, characters beyond the BMP as a
+// surrogate pair of escapes, a letter as an escape)
+func jsonStr(s string) string {
+	q := quoteGo(s, false)
+	if chance(0.05) {
+		q = strings.ReplaceAll(q, "/", "\\/")
+	}
+	if chance(0.05) {
+		var sb strings.Builder
+		for _, r := range q {
+			if r >= 0x10000 && r != utf8.RuneError {
+				r -= 0x10000
+				fmt.Fprintf(&sb, "\\u%04x\\u%04x", 0xd800+(r>>10), 0xdc00+(r&0x3ff))
+			} else {
+				sb.WriteRune(r)
+			}
+		}
+		if utf8.ValidString(q) {
+			q = sb.String()
+		}
+	}
+	if chance(0.03) && len(q) > 2 && q[1] >= 'a' && q[1] <= 'z' {
+		q = fmt.Sprintf("\"\\u%04x%s", q[1], q[2:])
+	}
+	return q
+}
 
 // genOp makes one operation against cur; in the awkward streams an operation sometimes lacks a
 // member it needs (value, from, path) or has it as null: the legacy DecodePatch validates nothing
